@@ -38,8 +38,9 @@ def zabs(t):
 
 def converters(ck):
     import _gettsim.time_conversion as TC
-    convs = TC._time_conversion_functions
+    convs = {n: getattr(TC, n) for n in (f"{a}_to_{b}" for a in "ymwd" for b in "ymwd" if a != b) if callable(getattr(TC, n, None))}
     want = {f"{a}_to_{b}" for a in "ymwd" for b in "ymwd" if a != b}
+    factory_wiring(ck)
     ck.obligations += 1
     if set(convs) == want:
         ck.discharged += 1
@@ -85,6 +86,51 @@ def converters(ck):
             ck.nontrivial.add(("roundtrip", a, b))
             if r == "sat":
                 ck.inconclusive.append(f"roundtrip-fp {a}->{b}->{a}: bound not met in the (1+d) model")
+
+
+def factory_wiring(ck):
+    """every ordered pair of units through the real factory: the function derived for x_<v> from a
+    source named x_<u> (with and without group suffix) multiplies by the documented factor --
+    independent of which units occur among the real column names"""
+    import _gettsim.time_conversion as TC
+    s = R.Sym(z3.Real("s"), float)
+    for agg in ("", "_hh"):
+        for u in "ymwd":
+            src = f"gsvprobe_{u}{agg}"
+            try:
+                made = TC._create_time_conversion_functions(src)
+            except Exception as e:   # noqa: BLE001
+                ck.obligations += 1
+                ck.violation(["factory-raises", u + agg], f"_create_time_conversion_functions({src!r}) raises {type(e).__name__}: {e}", {"kind": "factory"})
+                continue
+            for v in "ymwd":
+                if v == u:
+                    continue
+                d = f"gsvprobe_{v}{agg}"
+                ck.obligations += 1
+                if d not in made:
+                    ck.violation(["factory-missing", f"{u}->{v}{agg}"], f"no {d} is derived from {src}", {"kind": "factory"})
+                    continue
+                ck.obligations -= 1
+                fac = FACT[u] / FACT[v]
+                ctx = R.Ctx()
+                try:
+                    with R.using(ctx):
+                        val = R.call_value(made[d], [], {src: s})
+                    t = R.term_of(val, float)
+                except (R.Unsupported, R.PathEnd) as e:
+                    ck.add_inconclusive(f"factory {u}->{v}{agg}: {e}")
+                    continue
+                r, m = ck.oblige(f"factory {src} -> {d} = x * {fac}", [zabs(t - s.t * zfr(fac)) > zfr(REL) * zabs(s.t * zfr(fac))], 30,
+                                 sample=None if (u, v, agg) != ("d", "w", "") else {"source": src, "derived": d, "factor": str(fac)})
+                ck.nontrivial.add(("factory", u, v, agg))
+                if r == "sat":
+                    out = float(numpy.asarray(made[d](**{src: numpy.array([700.0])}))[0])
+                    if abs(out - 700.0 * float(fac)) > 1e-9 * 700.0 * float(fac):
+                        ck.violation(["factory-factor", f"{u}->{v}{agg}"], f"{d} derived from {src} gives {out} for 700.0; documented factor {fac} gives {700.0 * float(fac)}",
+                                     {"kind": "factory", "u": u, "v": v})
+                    else:
+                        common.spurious("C13", f"factory {u}->{v}")
 
 
 def time_names(dag_functions, inputs):
